@@ -370,20 +370,28 @@ fn check(tier: &str) -> i32 {
     let mut samples: Vec<Value> = vec![];
     let mut all_complete = true;
     let only = std::env::var("VERIF_SCENARIO").ok();
-    for (si, sc) in scs.iter().enumerate() {
-        if let Some(o) = &only {
-            if o != sc.name {
+    // Iterative context bounding ACROSS scenarios: every scenario completes bound b before any scenario starts
+    // bound b+1, so that a wall-clock cap costs the deepest bound of the last scenarios, never a whole scenario.
+    struct ScState {
+        completed_bound: i64,
+        passes: Vec<Value>,
+        outcomes: BTreeSet<String>,
+        stop: bool,
+    }
+    let mut st: Vec<ScState> = scs.iter().map(|_| ScState { completed_bound: -1, passes: vec![], outcomes: BTreeSet::new(), stop: false }).collect();
+    for b in 0..=max_bound {
+        for (si, sc) in scs.iter().enumerate() {
+            if let Some(o) = &only {
+                if o != sc.name {
+                    continue;
+                }
+            }
+            if st[si].stop {
                 continue;
             }
-        }
-        let mut completed_bound: i64 = -1;
-        let mut passes = vec![];
-        let mut sc_outcomes: BTreeSet<String> = BTreeSet::new();
-        let mut stop_scenario = false;
-        for b in 0..=max_bound {
-            if Instant::now() > deadline || stop_scenario {
+            if Instant::now() > deadline {
                 all_complete = false;
-                break;
+                continue;
             }
             let t0 = Instant::now();
             let (res, complete) = explore(si, b, per_pass_cap, deadline, jobs);
@@ -400,7 +408,7 @@ fn check(tier: &str) -> i32 {
                 max_points = max_points.max(r.points);
                 total_points += r.points as u64;
                 if !r.outcome.is_empty() {
-                    sc_outcomes.insert(r.outcome.clone());
+                    st[si].outcomes.insert(r.outcome.clone());
                 }
                 if r.failure == "machinery" {
                     machinery.push(format!("{}: {}", sc.name, r.detail));
@@ -416,21 +424,31 @@ fn check(tier: &str) -> i32 {
                 }
             }
             total_exec += res.len();
-            passes.push(json!({"preemption_bound": b, "schedules_executed": res.len(), "complete": complete, "schedules_by_preemptions": by_pre, "max_choice_points_per_schedule": max_points, "failing_schedules": fails, "wall_s": (t0.elapsed().as_secs_f64()*100.0).round()/100.0}));
-            eprintln!("[C14] {} bound {b}: schedules={} complete={complete} max_points={max_points} failing={fails} outcomes={} {:.1}s", sc.name, res.len(), sc_outcomes.len(), t0.elapsed().as_secs_f64());
+            st[si].passes.push(json!({"preemption_bound": b, "schedules_executed": res.len(), "complete": complete, "schedules_by_preemptions": by_pre, "max_choice_points_per_schedule": max_points, "failing_schedules": fails, "wall_s": (t0.elapsed().as_secs_f64()*100.0).round()/100.0}));
+            eprintln!("[C14] {} bound {b}: schedules={} complete={complete} max_points={max_points} failing={fails} outcomes={} {:.1}s", sc.name, res.len(), st[si].outcomes.len(), t0.elapsed().as_secs_f64());
             if complete {
-                completed_bound = b as i64;
+                st[si].completed_bound = b as i64;
             } else {
                 all_complete = false;
-                break;
+                st[si].stop = true;
             }
             // once a scenario fails at some bound, deeper bounds only re-find it
             if fails > 0 {
-                stop_scenario = true;
+                st[si].stop = true;
             }
         }
-        outcomes_all += sc_outcomes.len();
-        per.push(json!({"scenario": sc.name, "what": sc.what, "clients": sc.clients, "setup": sc.setup, "completed_preemption_bound": completed_bound, "passes": passes, "distinct_outcomes": sc_outcomes.len()}));
+    }
+    for (si, sc) in scs.iter().enumerate() {
+        if let Some(o) = &only {
+            if o != sc.name {
+                continue;
+            }
+        }
+        if st[si].completed_bound < max_bound as i64 && !st[si].stop {
+            all_complete = false;
+        }
+        outcomes_all += st[si].outcomes.len();
+        per.push(json!({"scenario": sc.name, "what": sc.what, "clients": sc.clients, "setup": sc.setup, "completed_preemption_bound": st[si].completed_bound, "passes": st[si].passes, "distinct_outcomes": st[si].outcomes.len()}));
     }
     for (id, (n, scn, r)) in &known {
         let path = write_replay(&json!({"property": "C14", "classification": format!("known:{id}"), "scenario": scn, "picks": r.picks, "failure": r.failure, "detail": r.detail, "outcome": r.outcome}));
